@@ -6,7 +6,7 @@ From Coq Require String.
 Import String.StringSyntax.
 Import ListNotations.
 From OV Require Import Base.Bytes Base.Utf8 Base.Cases Base.Tree Model.Csv Model.Fixed Model.Delim
-  Proofs.DelimUtf8 Proofs.DelimCsv Proofs.DelimFixed Proofs.DelimReaders Proofs.DelimLine Proofs.DelimCsv2.
+  Proofs.DelimUtf8 Proofs.DelimCsv Proofs.DelimFixed Proofs.DelimReaders Proofs.DelimLine Proofs.DelimCsv2 Proofs.DelimJump.
 Local Open Scope string_scope.
 Local Open Scope list_scope.
 
@@ -94,6 +94,29 @@ Theorem csv_header_then_rows : forall trim d hdr t trailing,
                          ++ flat_map (enc_row (encode_rune (d_delim d))) t ++ flat_map eol trailing))
   = map (row_node d) t ++ [OEOF].
 Proof. exact (fun trim d hdr t trailing V => header_then_rows trim d V hdr t trailing). Qed.
+
+(* every header_row_index / data_row_index, every table (blank lines and multi-line rows anywhere,
+   also before the header and between header and data), any number of Reads that is large enough:
+   the reader delivers exactly old_spec - jumpTo reads whole records while the decoder's physical
+   line counter is below the index (jump_spec; a record takes row_lines physical lines), the next
+   record is the header, and after the data-row jump every remaining row is delivered in order. *)
+Theorem csv_jump_general : forall trim d rows trailing count,
+  valid_delim (d_delim d) = true -> d_replace_dq d = false ->
+  Forall (wf_row (encode_rune (d_delim d))) rows -> length rows < count ->
+  run_reads ost (old_read trim d) count
+            (old_init d (flat_map (enc_row (encode_rune (d_delim d))) rows ++ flat_map eol trailing))
+  = old_spec trim d rows.
+Proof. exact (fun trim d rows trailing count V => csv_jump_general_proof trim d V rows trailing count). Qed.
+
+Example csv_jump_nonvacuous :
+  (* header on line 1, data_row_index 4; rows a / x / (blank) y / z: the jump to line 3 reads the
+     record "y" together with the blank line before it, so only z is delivered *)
+  let d := mkCsvDecl 44%N false (Some 1) 4 [(hx "61", hx "61")] in
+  let row v bl := mkRow bl [(false, v)] false in
+  let rows := [row (hx "61") []; row (hx "78") []; row (hx "79") [false]; row (hx "7a") []] in
+  old_spec trim_space d rows = [ONode (T DocumentNode [] FNone [text_elem (hx "61") (hx "7a")]); OEOF]
+  /\ run_reads ost (old_read trim_space d) 5 (old_init d (hx "610a780a0a790a7a0a")) = old_spec trim_space d rows.
+Proof. vm_compute. auto. Qed.
 
 (* a declared header that does not match (or cannot be read) is rejected with the fatal header
    error by the first Read, before any record: for every input, every header_row_index, any
